@@ -51,17 +51,25 @@ func vpParsers() []vpParser {
 var vpArgNames = [8]string{"arg0", "arg1", "arg2", "arg3", "arg4", "arg5", "arg6", "arg7"}
 
 // VerifC16_Parsers: every command parser returns (a command or an error) for every argument vector of 1..maxargs
-// arguments, each argument an arbitrary byte string of 0..maxlen bytes: no panic, no endless loop.
+// arguments: no panic, no endless loop. Arguments 1..3 (the positional ones of most commands) are arbitrary byte
+// strings of one shared length in {0,1,2}; arguments 4.. are arbitrary byte strings of 0..maxlen bytes whose
+// length and bytes are decided lazily, so that option keywords in either case, numbers, junk and missing option
+// values are all reachable.
 func VerifC16_Parsers() {
 	maxArgs := vpBound("maxargs")
 	maxLen := vpBound("maxlen")
 	ps := vpParsers()
 	p := ps[vpChoose("parser", len(ps))]
 	n := 1 + vpChoose("nargs", maxArgs)
+	posLen := vpChoose("poslen", 3)
 	args := make([][]byte, n)
 	args[0] = []byte("CMD")
 	for i := 1; i < n; i++ {
-		args[i] = vpLazyBytes(vpArgNames[i], maxLen)
+		if i <= 3 {
+			args[i] = vpBytes(vpArgNames[i], posLen)
+		} else {
+			args[i] = vpLazyBytes(vpArgNames[i], maxLen)
+		}
 	}
 	err := p.f(redcon.Command{Args: args})
 	_ = err
